@@ -39,6 +39,7 @@ fn main() {
         "line" => data::line(&args[1..]),
         "list" => data::list(&args[1..]),
         "seq" => data::seq(&args[1..]),
+        "typed" => data::typed(&args[1..]),
         other => { eprintln!("unknown scenario {other}"); std::process::exit(2); }
     });
     if let Err(e) = r {
